@@ -25,6 +25,14 @@ THR_TIE = 'thresholded-retrieval-float32-threshold-equality'
 # when the value stays in range and only differs from the set-based definition.
 REPEAT_HITS = 'retrieval-repeated-prediction-counted-as-several-hits'
 REPEAT_VALUE = 'retrieval-repeated-prediction-value-convention'
+# Thresholded retrieval, input class "a ranking repeats a RELEVANT id":
+# THR_LAST_WINS where the probability of the LAST occurrence decides instead of
+# the highest one (recall / f1 at a threshold that the last occurrence misses and
+# another one passes; results that change with the order of the (id, prob) pairs);
+# THR_REPEAT_VALUE where a relevant id sits at several positions above the
+# threshold (precision / f1: one hit or several - a convention, order-independent).
+THR_LAST_WINS = 'thresholded-retrieval-repeated-prediction-last-probability-wins'
+THR_REPEAT_VALUE = 'thresholded-retrieval-repeated-prediction-value-convention'
 
 # Row formulas that divide by the number of predictions / of true labels.
 _PRED_DEN = ('precision', 'ppv', 'positive_predictive_value', 'f1_score',
@@ -274,9 +282,18 @@ def check_thresholded(ctx, case):
   # Two admissible readings of "probability > threshold": exact comparison of
   # the given numbers, or comparison in single precision (the thresholds are
   # documented to be kept as float32). Either way one comparison per item.
-  exp = orc.thresholded_oracle(y_true, y_pred, given, thresholds)
-  exp32 = orc.thresholded_oracle(y_true, y_pred, given, thresholds,
-                                 quantize=orc.to_float32)
+  # Repeated ids: set semantics (the highest probability of an id counts, an id
+  # is one hit); the precision denominator may count distinct ids or positions.
+  exps = [orc.thresholded_oracle(y_true, y_pred, given, thresholds, quantize=qz,
+                                 repeats=rp)
+          for qz in (None, orc.to_float32) for rp in ('set', 'positions')]
+  exp = exps[0]
+  exp32 = exps[2]
+  rc = orc.thresholded_repeat_classes(y_true, y_pred, given, thresholds)
+  rc32 = orc.thresholded_repeat_classes(y_true, y_pred, given, thresholds,
+                                        quantize=orc.to_float32)
+  for key in ('last_differs', 'several_above', 'straddle'):
+    rc[key] = [a or b for a, b in zip(rc[key], rc32[key])]
   exact32 = all(orc.to_float32(t) == t for t in ths)
   tie = _mixed_precision_tie(y_prob, ths, prob_dtype)
   mis = cm.Mis()
@@ -284,6 +301,12 @@ def check_thresholded(ctx, case):
   ctx.count('thr_cases')
   if tie:
     ctx.count('thr_tie_cases')
+  if rc['repeated']:
+    ctx.count('thr_repeated_id_cases')
+    ctx.count('thr_repeated_relevant_id_cases' if rc['repeated_relevant']
+              else 'thr_repeated_irrelevant_id_cases')
+    if any(rc['straddle']):
+      ctx.count('thr_repeated_straddling_threshold_cases')
   names = ['precision', 'recall', 'f1_score']
   at = [f'{n}@{t}' for n in names for t in ths]
 
@@ -300,10 +323,15 @@ def check_thresholded(ctx, case):
     return {str(k): v for k, v in m.result().items()}
 
   def value_ok(g, n, j, atol=cm.ATOL):
-    return (cm.close(g, exp[n][j], atol=atol) or
-            cm.close(g, exp32[n][j], atol=atol))
+    return any(cm.close(g, e[n][j], atol=atol) for e in exps)
 
-  mech = THR_TIE if tie else None
+  def mech_of(n, j):
+    """Input-class key of a mismatch of metric n at threshold index j."""
+    if n != 'precision' and rc['last_differs'][j]:
+      return THR_LAST_WINS
+    if n != 'recall' and rc['several_above'][j]:
+      return THR_REPEAT_VALUE
+    return THR_TIE if tie else None
 
   def compare(res, path):
     # thresholds are reported in float32
@@ -314,11 +342,11 @@ def check_thresholded(ctx, case):
       for j, g in enumerate(got[:len(ths)]):
         ctx.count('thr_value_checks')
         if not value_ok(g, n, j):
-          mis.add('value_mismatch', mech,
+          mis.add('value_mismatch', mech_of(n, j),
                   {'metric': n, 'threshold': ths[j], 'path': path, 'got': g,
                    'want': exp[n][j], 'want_float32_semantics': exp32[n][j]})
         if not -1e-12 <= g <= 1 + 1e-12:
-          mis.add('out_of_range', mech, {'metric': n, 'got': g})
+          mis.add('out_of_range', mech_of(n, j), {'metric': n, 'got': g})
       if len(got) != len(ths):
         mis.add('value_mismatch', None, {'metric': n, 'got': got})
       for j, t in enumerate(ths):
@@ -327,14 +355,38 @@ def check_thresholded(ctx, case):
         # threshold that is a float32, else within the float32 resolution of t
         # relative to the gap to the neighbouring threshold.
         if not value_ok(res[f'{n}@{t}'], n, j, atol=cm.ATOL if exact32 else 2e-6):
-          mis.add('value_mismatch', mech,
+          mis.add('value_mismatch', mech_of(n, j),
                   {'metric': f'{n}@{t}', 'path': path,
                    'got': res[f'{n}@{t}'], 'want': exp[n][j]})
+
+  def order_twin(res):
+    """The same multiset of (id, probability) pairs per row in another order
+    (every row reversed; rows of >= 3 items also rotated by one): the result may
+    not change."""
+    twins = {'reversed': lambda r: list(r)[::-1]}
+    if any(len(r) >= 3 for r in y_pred):
+      twins['rotated'] = lambda r: list(r)[1:] + list(r)[:1]
+    for label, f in twins.items():
+      with cm.observed_warnings(ctx, 'thr'):
+        res2 = run([(y_true, [f(r) for r in y_pred],
+                     [f(r) for r in y_prob] if y_prob is not None else None)])
+      ctx.count('thr_order_twin_checks')
+      for n in names:
+        a = list(np.asarray(res[n], dtype=float).ravel())
+        b = list(np.asarray(res2[n], dtype=float).ravel())
+        bad = [j for j in range(min(len(a), len(b), len(ths)))
+               if not cm.close(a[j], b[j])]
+        if bad or len(a) != len(b):
+          mech = THR_LAST_WINS if any(rc['straddle'][j] for j in bad) else None
+          mis.add('order_dependence', mech,
+                  {'metric': n, 'twin': label, 'thresholds': ths, 'as_given': a,
+                   'reordered': b})
 
   try:
     with cm.observed_warnings(ctx, 'thr'):
       res = run([(y_true, y_pred, y_prob)])
     compare(res, 'add_result')
+    order_twin(res)
     split = config.get('split')
     if split and 0 < split < len(y_true):
       with cm.observed_warnings(ctx, 'thr'):
